@@ -616,11 +616,14 @@ func c08History(k *fw.K) {
 	h := &c08hist{k: k, trans: map[string]bool{}, flags: map[string]bool{}}
 	defer func() { k.Case = map[string]any{"history": h.actions} }()
 	steps := 5 + k.Rng.Intn(116)
+	if k.Index%500 == 3 { // a few very long histories
+		steps = 300 + k.Rng.Intn(300)
+	}
 	if k.Rng.Intn(3) == 0 {
 		steps = 5 + k.Rng.Intn(20)
 	}
 	ok := true
-	for s := 0; s < steps && ok && len(h.nodes) < 70; s++ {
+	for s := 0; s < steps && ok && (len(h.nodes) < 70 || steps >= 300 && len(h.nodes) < 220); s++ {
 		switch q := k.Rng.Intn(10); {
 		case len(h.nodes) >= 2 && q == 9 && k.Rng.Intn(2) == 0: // a call that must be rejected, on existing tensors
 			ok = h.doReject(k.Rng.Intn(64), k.Rng.Intn(len(h.nodes)), k.Rng.Intn(len(h.nodes)))
